@@ -55,6 +55,25 @@ var drivers = map[string]drv{
 			join2(func() { a.Lock(); b.Lock(); b.Unlock(); a.Unlock() }, func() { b.Lock(); a.Lock(); a.Unlock(); b.Unlock() })
 		}, Check: func(vsched.Result) (string, error) { return "ok", nil }}
 	}},
+	"rwrecursive": {expect: "deadlock", b: mc.Bounds{Preempt: 2, Dev: 0}, mk: func() mc.Exec {
+		// recursive read-locking with a writer arriving in between: documented deadlock of sync.RWMutex
+		var m vsync.RWMutex
+		return mc.Exec{Body: func() {
+			join2(func() { m.RLock(); m.RLock(); m.RUnlock(); m.RUnlock() }, func() { m.Lock(); m.Unlock() })
+		}, Check: func(vsched.Result) (string, error) { return "ok", nil }}
+	}},
+	"rwok": {expect: "", b: mc.Bounds{Preempt: -1, Dev: 0}, mk: func() mc.Exec {
+		var m vsync.RWMutex
+		n := 0
+		return mc.Exec{Body: func() {
+			join2(func() { m.RLock(); _ = n; m.RUnlock(); m.Lock(); n++; m.Unlock() }, func() { m.Lock(); n++; m.Unlock(); m.RLock(); _ = n; m.RUnlock() })
+		}, Check: func(vsched.Result) (string, error) {
+			if n != 2 {
+				return "", fmt.Errorf("n=%d", n)
+			}
+			return "ok", nil
+		}}
+	}},
 	"lockok": {expect: "", b: mc.Bounds{Preempt: -1, Dev: 0}, mk: func() mc.Exec {
 		var a, b vsync.Mutex
 		n := 0
